@@ -9,11 +9,11 @@ use crate::Ctx;
 use air_interpreter_interface::CallResults;
 use serde_json::json;
 
-fn merge_in_order(h: &Hist, observer: &Peer, datas: &[Vec<u8>], order: &[usize]) -> Result<Vec<u8>, String> {
+fn merge_in_order(air: &str, net: &crate::sim::Net, observer: &Peer, datas: &[Vec<u8>], order: &[usize]) -> Result<Vec<u8>, String> {
     let mut prev: Vec<u8> = vec![];
     for &i in order {
-        let o = crate::host::run(&RunArgs { air: &h.air, prev: &prev, cur: &datas[i], init_peer_id: &h.net.peer_ids[h.net.init], peer: observer, particle_id: &h.net.particle,
-                               timestamp: h.net.timestamp, ttl: h.net.ttl, results: &CallResults::new(), limits: Limits::unlimited() });
+        let o = crate::host::run(&RunArgs { air, prev: &prev, cur: &datas[i], init_peer_id: &net.peer_ids[net.init], peer: observer, particle_id: &net.particle,
+                               timestamp: net.timestamp, ttl: net.ttl, results: &CallResults::new(), limits: Limits::unlimited() });
         if (1..=9999).contains(&o.ret_code) || (20000..=29999).contains(&o.ret_code) { return Err(format!("code {} ({}): {}", o.ret_code, crate::gen_codes::name_of(o.ret_code), o.error_message.chars().take(160).collect::<String>())); }
         prev = o.data;
     }
@@ -30,6 +30,51 @@ fn permutations(n: usize) -> Vec<Vec<usize>> {
     let mut out = vec![]; go(&mut vec![], &mut vec![false; n], n, &mut out); out
 }
 
+/// all permutations of up to 4 data of one history merged at a fresh observer: same results (and same trace modulo senders without streams)
+fn check_orders(rep: &mut Report, rng: &mut Rng, observer: &Peer, air: &str, net: &crate::sim::Net, uses_streams: bool) {
+    let mut datas: Vec<Vec<u8>> = vec![];
+    for st in &net.log { if st.outcome.ret_code == 0 && !st.outcome.data.is_empty() && !datas.contains(&st.outcome.data) { datas.push(st.outcome.data.clone()); } }
+    if datas.len() < 2 { return; }
+    // pick up to 4 data (the last ones carry most knowledge)
+    let k = datas.len().min(2 + rng.below(3));
+    let mut chosen: Vec<Vec<u8>> = vec![];
+    while chosen.len() < k { let d = datas[rng.below(datas.len())].clone(); if !chosen.contains(&d) { chosen.push(d); } }
+    let perms = permutations(k);
+    let mut reference: Option<(Vec<usize>, Facts)> = None;
+    for order in &perms {
+        rep.case(&format!("{}|{:?}|{:?}", air, chosen.iter().map(|d| fnv(&hex(d))).collect::<Vec<_>>(), order), true,
+                 || json!({"air": air, "data_lens": chosen.iter().map(|d| d.len()).collect::<Vec<_>>(), "order": order}));
+        match merge_in_order(air, net, observer, &chosen, order) {
+            Err(e) => { rep.oracle_fail(json!({"why": format!("merging honest data of one particle in order {order:?} fails: {e}"), "air": air, "order": order, "data_hex": chosen.iter().map(|d| hex(d)).collect::<Vec<_>>(),
+                "finding_key": if e.contains("is incompatible with expected") && e.contains("`Call(RequestSentBy(") { Some("stale-request-state-consumed-by-another-instruction") } else { None } })); break; }
+            Ok(d) => {
+                let f = match facts(&d) { Some(f) => f, None => { rep.oracle_fail(json!({"why": "merged data does not decode", "air": air})); break; } };
+                if let Some((o0, f0)) = &reference {
+                    if f0.result_cids() != f.result_cids() {
+                        rep.oracle_fail(json!({"why": format!("orders {o0:?} and {order:?} yield different sets of results"), "air": air, "data_hex": chosen.iter().map(|d| hex(d)).collect::<Vec<_>>()})); break;
+                    }
+                    if !uses_streams && senderless(&f0.trace) != senderless(&f.trace) {
+                        rep.oracle_fail(json!({"why": format!("stream-free script: orders {o0:?} and {order:?} yield different traces (beyond senders)"), "air": air, "data_hex": chosen.iter().map(|d| hex(d)).collect::<Vec<_>>()})); break;
+                    }
+                } else { reference = Some((order.clone(), f)); }
+            }
+        }
+    }
+}
+
+/// hand-written scripts for the merge paths the random generator reaches rarely: streams filled by `ap` (whose states exist in every
+/// peer's data) folded with remote calls in the body, so that different data know different results INSIDE the same iterations
+fn directed_scripts(ids: &[String]) -> Vec<String> {
+    let (a, b, c, d) = (&ids[0], &ids[1], &ids[2], &ids[3]);
+    vec![
+        format!(r#"(seq (seq (ap "{b}" $w) (ap "{c}" $w)) (fold $w p (par (call p ("svc" "str_1") [p]) (next p))))"#),
+        format!(r#"(seq (seq (ap "{b}" $w) (seq (ap "{c}" $w) (ap "{d}" $w))) (fold $w p (par (seq (call p ("svc" "str_1") [p] x) (call "{a}" ("svc" "echo_2") [x])) (next p))))"#),
+        format!(r#"(seq (seq (ap "{b}" $w) (ap "{c}" $w)) (seq (fold $w p (par (call p ("svc" "str_1") [p] $r) (next p))) (seq (canon "{a}" $r #r) (call "{d}" ("svc" "echo_2") [#r]))))"#),
+        format!(r#"(seq (seq (call "{a}" ("svc" "str_1") [] $w) (ap "{c}" $w)) (fold $w p (par (seq (call "{b}" ("svc" "echo_2") [p]) (call "{c}" ("svc" "echo_3") [p])) (next p))))"#),
+        format!(r#"(seq (seq (ap 1 $n) (ap 2 $n)) (fold $n i (par (xor (call "{b}" ("svc" "fail_1") [i]) (call "{c}" ("svc" "str_2") [i])) (seq (call "{d}" ("svc" "str_3") [i]) (next i)))))"#),
+    ]
+}
+
 pub fn run(ctx: &mut Ctx, rep: &mut Report) {
     rep.rule = "case = (history, set of up to 4 data produced in it, merge order at a fresh observer); all permutations of the set are merged; \
         compared: multiset of result content ids, and the whole trace modulo senders when the script has no streams; non-trivial = at least 2 distinct data; distinct by hash of (script, data set, order)".into();
@@ -41,33 +86,19 @@ pub fn run(ctx: &mut Ctx, rep: &mut Report) {
         let budget = 6 + rng.below(10);
         let h = gen_history(&mut rng, streams, false, budget, 50);
         note_history(rep, &h);
-        let mut datas: Vec<Vec<u8>> = vec![];
-        for st in &h.net.log { if st.outcome.ret_code == 0 && !st.outcome.data.is_empty() && !datas.contains(&st.outcome.data) { datas.push(st.outcome.data.clone()); } }
-        if datas.len() < 2 { continue; }
-        // pick up to 4 data (the last ones carry most knowledge)
-        let k = datas.len().min(2 + rng.below(3));
-        let mut chosen: Vec<Vec<u8>> = vec![];
-        while chosen.len() < k { let d = datas[rng.below(datas.len())].clone(); if !chosen.contains(&d) { chosen.push(d); } }
-        let perms = permutations(k);
-        let mut reference: Option<(Vec<usize>, Facts)> = None;
-        for order in &perms {
-            rep.case(&format!("{}|{:?}|{:?}", h.air, chosen.iter().map(|d| fnv(&hex(d))).collect::<Vec<_>>(), order), true,
-                     || json!({"air": h.air, "data_lens": chosen.iter().map(|d| d.len()).collect::<Vec<_>>(), "order": order}));
-            match merge_in_order(&h, &observer, &chosen, order) {
-                Err(e) => { rep.oracle_fail(json!({"why": format!("merging honest data of one particle in order {order:?} fails: {e}"), "air": h.air, "order": order, "data_hex": chosen.iter().map(|d| hex(d)).collect::<Vec<_>>(),
-                    "finding_key": if e.contains("is incompatible with expected") && e.contains("`Call(RequestSentBy(") { Some("stale-request-state-consumed-by-another-instruction") } else { None } })); break; }
-                Ok(d) => {
-                    let f = match facts(&d) { Some(f) => f, None => { rep.oracle_fail(json!({"why": "merged data does not decode", "air": h.air})); break; } };
-                    if let Some((o0, f0)) = &reference {
-                        if f0.result_cids() != f.result_cids() {
-                            rep.oracle_fail(json!({"why": format!("orders {o0:?} and {order:?} yield different sets of results"), "air": h.air, "data_hex": chosen.iter().map(|d| hex(d)).collect::<Vec<_>>()})); break;
-                        }
-                        if !h.script.uses_streams() && senderless(&f0.trace) != senderless(&f.trace) {
-                            rep.oracle_fail(json!({"why": format!("stream-free script: orders {o0:?} and {order:?} yield different traces (beyond senders)"), "air": h.air, "data_hex": chosen.iter().map(|d| hex(d)).collect::<Vec<_>>()})); break;
-                        }
-                    } else { reference = Some((order.clone(), f)); }
-                }
-            }
+        check_orders(rep, &mut rng, &observer, &h.air, &h.net, h.script.uses_streams());
+    }
+    // directed scripts, several random schedules each
+    let peers = peers_for(4);
+    let ids: Vec<String> = peers.iter().map(|p| p.id.clone()).collect();
+    for (si, air) in directed_scripts(&ids).iter().enumerate() {
+        if air_parser::parse(air).is_err() { rep.oracle_fail(json!({"why": "harness: directed C08 script does not parse", "air": air})); continue; }
+        for round in 0..(if ctx.thorough { 40 } else { 6 }) {
+            let mut net = crate::sim::Net::new(air, &peers, &format!("c08-directed-{si}-{round}"));
+            let mut r2 = rng.fork();
+            net.run_random(&mut r2, 60);
+            rep.stat("directed_histories");
+            for _ in 0..3 { check_orders(rep, &mut rng, &observer, air, &net, true); }
         }
     }
 }
